@@ -45,6 +45,18 @@ RULES = {
         (r"names = list\(live_points\.dtype\.names\)", "fixed", "no case called a converter with names=None (the default); default-argument calls added"),
         (r"default_values = tuple|if n == 0|N = 1|scalars = True", "equivalent", "same outputs (tuple vs list, the n = 0 fast path, the scalar-dict branch)"),
     ],
+    "C09": [
+        (r"min_log_q = None|np\.empty\(0\)|log_weights - log_constant\) > log_u|r > self\.max_radius|r < self\.min_radius", "equivalent",
+         "same behaviour except on a measure-zero boundary / an unused initial value"),
+        (r"if self\.indices", "outside", "warning about a pool that is being replaced"),
+        (r"worst_point = self\.training_data", "outside", "which radius is chosen is free; the pool is the prior inside whatever contour was chosen"),
+    ],
+    "C15": [
+        (r"checkpoint\(|self\.checkpointing", "outside", "checkpointing inside the loop is C11 / C12 / C13's subject"),
+        (r"self\.importance = |self\.log_state\(\)", "outside", "diagnostics"),
+        (r"self\.n_update\]", "outside", "the n_update path (an open C20 finding: such runs do not stop) is not exercised"),
+        (r"train = True", "outside", "when the proposal is retrained, not when the run stops"),
+    ],
     "C16": [
         (r"np\.asarray\(", "equivalent", "the harness passes arrays; asarray is the identity on them"),
         (r"np\.where\(log_w > log_u\)\[0\]", "equivalent", "np.where returns a 1-tuple: [-1] is [0]"),
